@@ -72,11 +72,11 @@ theorem performRedirs_wf (o : Oracle W) (w : W) (t : FdTable) (rs : List Redir) 
 
 /-- ★ the same at the level of a command, for the way each command kind uses the guard
     (`execute_builtin`, `execute_function`, `execute_external_utility`, `FullCompoundCommand::execute`,
-    `execute_absent_target`): afterwards the table is what it was before, whether the command ran,
-    was not found, or a redirection failed — except for an `exec` (or `command exec`) whose
-    redirections all succeeded -/
+    `execute_absent_target`), in an interactive or a non-interactive shell: afterwards the table is
+    what it was before, whether the command ran, was not found, or a redirection failed — except for
+    the `exec` family when its redirections all succeeded (`exec_persists`) -/
 theorem command_restores (w : World) (t : FdTable) (k : Kind) (rs : List Redir) (prev : Nat) (hw : WF t)
-    (h : k = .exec ∨ k = .commandExec → (performRedirs worldOracle w t rs).err ≠ none) :
+    (h : k.isExec = true → (performRedirs worldOracle w t rs).err ≠ none) :
     (runCommand w t k rs prev).t.limit = t.limit ∧ ∀ fd, (runCommand w t k rs prev).t.get fd = t.get fd := by
   have hu := undo_restores worldOracle w t rs hw
   unfold runCommand
@@ -86,26 +86,22 @@ theorem command_restores (w : World) (t : FdTable) (k : Kind) (rs : List Redir) 
     split
     · exact ⟨rfl, fun _ => rfl⟩
     · split <;> exact ⟨rfl, fun _ => rfl⟩
-  | exec =>
+  | exec | commandExec | execNotFound | execNoExec | commandExecNotFound =>
     simp only
     cases he : (performRedirs worldOracle w t rs).err with
-    | none => exact absurd he (h (.inl rfl))
-    | some e => simp only; split <;> exact hu
-  | commandExec =>
-    simp only
-    cases he : (performRedirs worldOracle w t rs).err with
-    | none => exact absurd he (h (.inr rfl))
-    | some e => simp only; split <;> exact hu
+    | none => exact absurd he (h rfl)
+    | some e => simp only; split <;> simp only [endOrGoOn_t] <;> exact hu
   | dot | dotMissing =>
     simp only
     cases he : (performRedirs worldOracle w t rs).err with
-    | some e => simp only; split <;> exact hu
+    | some e => simp only; split <;> simp only [endOrGoOn_t] <;> exact hu
     | none =>
       simp only
       split
       · next hnone =>
         obtain ⟨hl, hN, _⟩ := openScript_spec worldOracle (performRedirs worldOracle w t rs).w
           (performRedirs worldOracle w t rs).t _
+        simp only [endOrGoOn_t]
         exact (Equiv.undoRedirs ⟨hl, hN hnone⟩ _).trans hu
       · next fd hsome =>
         obtain ⟨hl, _, hS⟩ := openScript_spec worldOracle (performRedirs worldOracle w t rs).w
@@ -120,7 +116,27 @@ theorem command_restores (w : World) (t : FdTable) (k : Kind) (rs : List Redir) 
     simp only
     cases he : (performRedirs worldOracle w t rs).err with
     | none => first | exact hu | (simp only; exact hu)
-    | some e => simp only; split <;> exact hu
+    | some e => simp only; split <;> simp only [endOrGoOn_t] <;> exact hu
+
+/-- ★ "redirections on `exec` persist": for `exec` and `command exec`, without operand or with an
+    operand that is not found (127) or cannot be executed (126), in an interactive shell (which goes
+    on) and in a non-interactive one (which ends there) alike: when the redirections all succeeded the
+    table the command leaves is the redirected table with exactly the saved copies closed
+    (`preserve_redirs`) — `should_retain_redirs` is set on every path of the built-in -/
+theorem exec_persists (w : World) (t : FdTable) (k : Kind) (rs : List Redir) (prev : Nat)
+    (hk : k.isExec = true) (h : (performRedirs worldOracle w t rs).err = none) :
+    (runCommand w t k rs prev).t =
+      preserveRedirs (performRedirs worldOracle w t rs).t (performRedirs worldOracle w t rs).saved := by
+  unfold runCommand
+  cases k <;> simp [Kind.isExec] at hk <;> simp only [h, endOrGoOn_t]
+
+-- non-vacuity: interactive `exec nosuchcmd 4>b` keeps descriptor 4 on b and goes on with 127;
+-- the non-interactive shell ends there with the same table
+example : ((runCommand (stdWorld false true) stdTable .execNotFound [⟨4, .file .fileOut 4⟩]).t.get 4).isSome = true ∧
+    (runCommand (stdWorld false true) stdTable .execNotFound [⟨4, .file .fileOut 4⟩]).status = some 127 ∧
+    (runCommand (stdWorld false false) stdTable .execNotFound [⟨4, .file .fileOut 4⟩]).exited = some 127 ∧
+    ((runCommand (stdWorld false false) stdTable .execNotFound [⟨4, .file .fileOut 4⟩]).t.get 4).isSome = true := by
+  decide
 
 -- non-vacuity: a table meeting `WF`, a list that succeeds, a list that fails part-way
 example : WF stdTable := by
@@ -339,6 +355,18 @@ theorem preserve_keeps_targets (o : Oracle W) (w : W) (t : FdTable) (rs : List R
     have := (internal_fds o w t rs s hs fd hsv).2.1
     omega
   · rw [preserveRedirs_limit, performRedirs_limit]
+
+/-- … hence (with `preserve_keeps_targets`) every descriptor below 10 is afterwards what the
+    redirections made of it, and no saved copy is left -/
+theorem exec_persists_targets (w : World) (t : FdTable) (k : Kind) (rs : List Redir) (prev : Nat)
+    (hk : k.isExec = true) (h : (performRedirs worldOracle w t rs).err = none) :
+    (∀ fd, fd < minInternalFd →
+      (runCommand w t k rs prev).t.get fd = (performRedirs worldOracle w t rs).t.get fd) ∧
+    (∀ s ∈ (performRedirs worldOracle w t rs).saved, ∀ sv, s.save = some sv →
+      (runCommand w t k rs prev).t.get sv = none) := by
+  rw [exec_persists w t k rs prev hk h]
+  obtain ⟨h1, _, h3, _⟩ := preserve_keeps_targets worldOracle w t rs
+  exact ⟨h3, h1⟩
 
 example : (preserveRedirs (performRedirs worldOracle (stdWorld false) stdTable [⟨1, .file .fileOut 3⟩]).t
     (performRedirs worldOracle (stdWorld false) stdTable [⟨1, .file .fileOut 3⟩]).saved).openFds
